@@ -87,6 +87,10 @@ func c11Doc(r *core.Rand, today ref.Date) (string, []c11Rec) {
 		sp := ""
 		if rc.dashSpaces {
 			sp = " "
+			// any number of spaces may surround the dash; what a record exhibits is "with spaces"
+			if core.Hash64("c11-wide", fmt.Sprint(rc.date, rc.indent, rc.extraQ))%5 == 0 {
+				sp = "  "
+			}
 		}
 		tm := func(off int) string { return ref.FormatTime(ref.TimeV{Off: off, H12: rc.h12}) }
 		cont := ""
@@ -287,6 +291,7 @@ func c11Check(e *core.Env, r *core.Rand, text string, rec *ref.Recognition, cmd 
 	// (a) determinism
 	var first string
 	var firstOK bool
+	var firstErr string
 	reps := 24
 	for k := 0; k < reps; k++ {
 		if err := os.WriteFile(file, []byte(text), 0644); err != nil {
@@ -300,7 +305,7 @@ func c11Check(e *core.Env, r *core.Rand, text string, rec *ref.Recognition, cmd 
 		}
 		after := readFile(file)
 		if k == 0 {
-			first, firstOK = after, res.OK
+			first, firstOK, firstErr = after, res.OK, res.ErrText
 			if !res.OK {
 				reps = 6
 			}
@@ -315,6 +320,22 @@ func c11Check(e *core.Env, r *core.Rand, text string, rec *ref.Recognition, cmd 
 	e.Count("repetitions", int64(reps))
 	if !firstOK {
 		e.Count("failed_commands", 1)
+		// The styles a file may exhibit are followed, not refused: when the command is one the model accepts, it must
+		// not fail on this file and succeed on the same records written in the plainest style.
+		if out := applyModel(rec.Doc, cmd, env); out.Undecided == "" && out.OK {
+			e.Count("failed_commands_the_model_accepts", 1)
+			twin := plainText(rec.Doc)
+			if trec := ref.Recognise(twin); trec.Verdict == ref.Conforming && twin != text {
+				if out2 := applyModel(trec.Doc, cmd, env); out2.Undecided == "" && out2.OK {
+					_ = os.WriteFile(file, []byte(twin), 0644)
+					res := runMutating(e, cmd, env, file, false)
+					if res.OK {
+						w["same_records_in_plain_style"], w["error_on_the_original"] = twin, firstErr
+						e.Violation("refusal-depends-on-style: "+cmd.Kind, fmt.Sprintf("`klog %s` fails on this file (%s) but succeeds on the same records written with dash dates, four spaces, LF, ` - ` and a single `?`: a style the file exhibits was refused instead of followed", cmd.String(), trunc(firstErr, 160)), w)
+					}
+				}
+			}
+		}
 		return
 	}
 	w["after"] = first
